@@ -129,6 +129,8 @@ impl Check for Fixpoint {
 
 #[derive(Clone, Debug)]
 pub enum DetCase {
+    /// an external-equivalence task from the task generator (choices)
+    External(Vec<u16>),
     Translate(asp::Program, Transform),
     Strong(asp::Program, asp::Program, Vec<&'static str>),
 }
@@ -168,6 +170,7 @@ impl Check for Determinism {
             0..=4,
         );
         prop_oneof![
+            1 => crate::generators::task::choices(170).prop_map(DetCase::External),
             1 => (ga::program(&c), prop::sample::select(Transform::all())).prop_map(|(p, t)| DetCase::Translate(p, t)),
             1 => (ga::program(&c), ga::program(&c), flags).prop_map(|(a, b, f)| DetCase::Strong(a, b, f)),
         ]
@@ -181,6 +184,89 @@ impl Check for Determinism {
             return Outcome::skip("ANTHEM_BIN not set");
         };
         match case {
+            DetCase::External(choices) => {
+                use crate::generators::task::{self as gt, Chooser};
+                let mut c = Chooser::new(choices.clone());
+                let names = if c.flag(1, 2) { gt::Names::tricky(&mut c) } else { gt::Names::clean(&mut c) };
+                let task = gt::external_task_with(&mut c, names);
+                let flags = gt::flags(&mut c);
+                let dir = cli::scratch_dir("c18x");
+                let mut files: Vec<String> = vec![];
+                match (&task.left_program, &task.left_spec) {
+                    (Some(p), _) => {
+                        std::fs::write(dir.join("a.lp"), safe_print::asp_program(p, &Style::plain())).unwrap();
+                        files.push(dir.join("a.lp").to_string_lossy().to_string());
+                    }
+                    (_, Some(sp)) => {
+                        std::fs::write(dir.join("s.spec"), safe_print::specification(sp, &Style::plain())).unwrap();
+                        files.push(dir.join("s.spec").to_string_lossy().to_string());
+                    }
+                    _ => {}
+                }
+                std::fs::write(dir.join("b.lp"), safe_print::asp_program(&task.right, &Style::plain())).unwrap();
+                files.push(dir.join("b.lp").to_string_lossy().to_string());
+                std::fs::write(dir.join("u.ug"), safe_print::user_guide(&task.user_guide, &Style::plain())).unwrap();
+                files.push(dir.join("u.ug").to_string_lossy().to_string());
+                let mut snapshots = vec![];
+                for i in 0..3 {
+                    let out = dir.join(format!("out{i}"));
+                    std::fs::create_dir_all(&out).unwrap();
+                    let mut args: Vec<String> = vec![
+                        "verify".into(),
+                        "--equivalence".into(),
+                        "external".into(),
+                        "--no-proof-search".into(),
+                        "--save-problems".into(),
+                        out.to_string_lossy().to_string(),
+                        "--direction".into(),
+                        match flags.direction {
+                            fol::Direction::Universal => "universal".into(),
+                            fol::Direction::Forward => "forward".into(),
+                            fol::Direction::Backward => "backward".into(),
+                        },
+                        "--decomposition".into(),
+                        if flags.sequential { "sequential".into() } else { "independent".into() },
+                    ];
+                    if !flags.simplify {
+                        args.push("--no-simplify".into());
+                    }
+                    if !flags.eq_break {
+                        args.push("--no-eq-break".into());
+                    }
+                    args.extend(files.iter().cloned());
+                    let argv: Vec<&str> = args.iter().map(|s| s.as_str()).collect();
+                    let r = cli::run(&bin, &argv, None);
+                    snapshots.push((r.code, cli::snapshot_dir(&out)));
+                }
+                let _ = std::fs::remove_dir_all(&dir);
+                let description = crate::checks::problems::describe_external(&task);
+                if snapshots.iter().any(|s| *s != snapshots[0]) {
+                    return Outcome::fail(
+                        "nondeterministic-problems",
+                        format!("C18: verify --equivalence external wrote different files in separate processes\n{description}\n  flags: {}", flags.describe()),
+                    );
+                }
+                // the library path (hooks) must produce the same files as the command line
+                if let Ok((problems, _)) = ops::external_problems(&task, &ops::empty_outline(), &flags, false) {
+                    let mut lib: Vec<(String, String)> = problems.iter().map(|p| (format!("{}.p", p.name), p.text.clone())).collect();
+                    lib.sort();
+                    if snapshots[0].0 == Some(0) && lib != snapshots[0].1 {
+                        return Outcome::fail(
+                            "cli-differs-from-library",
+                            format!(
+                                "C18: the problem files written by the command line differ from the problems of the same task generated in-process\n{description}\n  flags: {}\n  cli files: {:?}\n  library: {:?}",
+                                flags.describe(),
+                                snapshots[0].1.iter().map(|x| &x.0).collect::<Vec<_>>(),
+                                lib.iter().map(|x| &x.0).collect::<Vec<_>>()
+                            ),
+                        );
+                    }
+                } else if snapshots[0].0 == Some(0) {
+                    return Outcome::fail("cli-differs-from-library", format!("C18: the command line accepts a task the library refuses\n{description}"));
+                }
+                let total: usize = snapshots[0].1.iter().map(|(_, c)| c.len()).sum();
+                Outcome::pass(total >= 200 && snapshots[0].0 == Some(0), hash64(&format!("{:?}", snapshots[0].1))).label("cmd=verify-external")
+            }
             DetCase::Translate(p, t) => {
                 let text = safe_print::asp_program(p, &Style::plain());
                 let mut outputs = vec![];
@@ -277,6 +363,7 @@ impl Check for Determinism {
     }
     fn describe(&self, case: &DetCase) -> Value {
         match case {
+            DetCase::External(c) => json!({"external": c}),
             DetCase::Translate(p, t) => json!({"program": safe_print::asp_program(p, &Style::plain()), "transform": t.name()}),
             DetCase::Strong(a, b, f) => json!({
                 "left": safe_print::asp_program(a, &Style::plain()),
@@ -286,6 +373,9 @@ impl Check for Determinism {
         }
     }
     fn from_replay(&self, j: &Value) -> Option<DetCase> {
+        if let Some(c) = j.get("external") {
+            return Some(DetCase::External(c.as_array()?.iter().map(|x| x.as_u64().unwrap() as u16).collect()));
+        }
         if let Some(p) = j.get("program") {
             Some(DetCase::Translate(p.as_str()?.parse().ok()?, Transform::parse(j["transform"].as_str()?)?))
         } else {
